@@ -120,7 +120,7 @@ Definition check_text (i : N) (c : bytes * string * ascii * bool) : list (N * N 
       (if uses_unsupported ts then [(100%N, i, 0%N)]
        else
          let w := wf ts in
-         (if must && negb w then [(9%N, i, 0%N)] else []) ++
+         (if must && negb w then [((if q_after_paren ts then 101%N else 9%N), i, 0%N)] else []) ++
          (if obs_ok w o then []
           else if q_after_paren ts then [(101%N, i, 0%N)]
           else [((if w then 8%N else 7%N), i, 0%N)]))
